@@ -3,5 +3,5 @@
 tier=${1:-quick}
 for i in 01 02 03 04 05 06 07 08 09 10 11 12 13 14 15 16 17 18; do
   s=$(date +%s); out=$(./check C$i --tier $tier 2>&1 | grep -E "^C[0-9]+ tier|VIOLATION|KNOWN-FINDING" | cut -c1-160); e=$(date +%s)
-  echo "$out [$((e-s))s]"
+  printf "%s [%ss]\n" "$out" "$((e-s))"
 done
